@@ -126,7 +126,7 @@ Section Top.
   Definition pref_ok (fuel tries : nat) (p : nat) : Prop :=
     (forall q G l, on_walk tries p q -> ir_results ix (p_unicode prog) utf16 h fuel n0 true (q, G) = Some l -> l <> [] ->
                    test (skipn q h) = true) /\
-    (forall q q' i, on_walk tries p q -> ix_next_right_pos ix h q = Ok (Some q') -> (q < i < q')%nat -> test (skipn i h) = false) /\
+    (forall q q' i, on_walk tries p q -> test (skipn q h) = false -> ix_next_right_pos ix h q = Ok (Some q') -> (q < i < q')%nat -> test (skipn i h) = false) /\
     (forall q, on_walk tries p q -> ix_next_right_pos ix h q = Ok None -> q = length h) /\
     (forall q q', on_walk tries p q -> ix_next_right_pos ix h q = Ok (Some q') -> (q < q')%nat).
 
@@ -245,7 +245,7 @@ Section Top.
         destruct kk as [|kk]; [lia|].
         assert (Hfb : find_bytes test h p = find_bytes test h p').
         { apply find_bytes_skip; [lia|exact Hp'|]. intros i Hi.
-          destruct (Nat.eq_dec i p) as [->|Hne]; [exact Et|]. eapply (Halign p p' i Hpp En). lia. }
+          destruct (Nat.eq_dec i p) as [->|Hne]; [exact Et|]. eapply (Halign p p' i Hpp Et En). lia. }
         specialize (Hrest (S kk) pfuel n budget ltac:(lia) Hf Hb).
         cbn [bt_search] in Hrest |- *. rewrite Hfb. exact Hrest.
       + inversion Hs; subst r. pose proof (Hend p Hpp En) as Hpe. subst p.
